@@ -119,6 +119,10 @@ def check_property(prop, tier, seed, jobs, verbose):
     canary_ok = canary_ok and s2.check() == z3.sat
     if not canary_ok:
         checker_errors.append("solver canary failed")
+    from pyvc import streams
+    dl = streams.prove_digit_lemmas()
+    if any(r != "unsat" for _, r in dl):
+        checker_errors.append(f"digit lemma not proved over bit-vectors: {dl}")
 
     # ---- work items ---------------------------------------------------------------------------
     items = []
@@ -133,9 +137,13 @@ def check_property(prop, tier, seed, jobs, verbose):
             items.append((key, ctx, None, timeout_ms, thorough))
             for al in c.alias_cases:
                 items.append((key, ctx, tuple(al), timeout_ms, thorough))
+            for var in c.variants:
+                items.append((key, ctx, tuple(sorted(var.items())), timeout_ms, thorough))
     for name, lm in LEMMAS.items():
         if prop in lm.contract_kw.get("properties", []):
             items.append((name, None, None, timeout_ms, thorough))
+            for var in lm.contract_kw.get("variants", []):
+                items.append((name, None, tuple(sorted(var.items())), timeout_ms, thorough))
     results = runner.run_items(items, jobs) if items else []
 
     # ---- triage --------------------------------------------------------------------------------
